@@ -7,7 +7,7 @@ held with their mode).
 What is *not* extracted is written down here, by hand, and is part of the trusted base:
  * `rolesOf`: which goroutine roles execute a method, and whether several goroutines of that role can
    run it at once (read off main.go and the package APIs);
- * `canon`: which extracted locations denote shared mutable state, under which canonical name, and what
+ * `canon`: under which canonical name an extracted location is tracked (every plain receiver field is, by default), and what
    a call into third-party code does to it (`lru.Cache.Get` reorders its list, i.e. writes; prometheus
    collectors, channels and slog loggers synchronise internally and are not tracked).
 -/
@@ -24,7 +24,7 @@ structure Role where
 def rolesOf (ty method : String) : List Role :=
   let exporter : Role := ⟨"exporter", false⟩
   let lookup : List Role := [exporter, ⟨"library-lookup", true⟩]    -- GetMapping: the exporter goroutine and any library caller
-  let reloader : Role := ⟨"reloader", false⟩
+  let reloader : Role := ⟨"reloader", true⟩                         -- the SIGHUP goroutine and one goroutine per POST /-/reload (main.go): reloads can overlap
   let listener : Role := ⟨"listener", true⟩                         -- UDP processor, Unixgram, every TCP connection
   let tracker : Role := ⟨"cache-length-tracker", true⟩              -- `go m.trackCacheLength()`
   if ty == "MetricMapper" then
@@ -46,7 +46,15 @@ def rolesOf (ty method : String) : List Role :=
     else if method == "relayOutput" || method == "sendPacket" then [⟨"relay-sender", false⟩]
     else []
   else if ty == "Registry" || ty == "Exporter" then [exporter]
+  -- every listener method runs in listener goroutines (reader, packet processor, one goroutine per TCP connection)
+  -- (`SetEventHandler` is called by main.go before the goroutines are started)
+  else if ty == "StatsDUDPListener" || ty == "StatsDTCPListener" || ty == "StatsDUnixgramListener" then
+    if method == "SetEventHandler" then [] else [listener]
   else []
+
+/-- `T.f`: exactly one dot and no call suffix -/
+def isPlainField (loc : String) : Bool :=
+  (loc.toList.filter (· == '.')).length == 1 && !loc.toList.contains '('
 
 /-- canonical shared location of an extracted location and whether the access writes it;
     `none` = not shared mutable state (immutable after construction, internally synchronised, or goroutine-local) -/
@@ -70,10 +78,23 @@ structure Acc where
   locks : List (String × Bool)      -- ("Type.lock", held exclusively?)
   deriving DecidableEq, Repr
 
+/-- plain receiver fields `T.f` that some goroutine method (one with a role) writes -/
+def writtenFields (tbl : List Access) : List String :=
+  ((tbl.filter fun a => a.write && isPlainField a.loc && !(rolesOf a.ty a.method).isEmpty).map (·.loc)).eraseDups
+
+/-- `canon`, and by default: any other plain field `T.f` that a goroutine method writes counts as shared state under
+    its own name and has to obey the discipline (so a field added to the source is covered without touching `canon`;
+    a field that is only read after construction cannot conflict and is left out) -/
+def canonIn (written : List String) (loc : String) (write : Bool) : Option (String × Bool) :=
+  match canon loc write with
+  | some r => some r
+  | none => if written.contains loc then some (loc, write) else none
+
 /-- the discipline rows derived from the extracted table -/
 def accRows (tbl : List Access) : List Acc :=
+  let written := writtenFields tbl
   tbl.flatMap fun a =>
-    match canon a.loc a.write with
+    match canonIn written a.loc a.write with
     | none => []
     | some (loc, w) => (rolesOf a.ty a.method).map fun r =>
         -- lock names are per type: qualify them
